@@ -37,6 +37,11 @@ pub struct ReplicaPlan {
     /// schedule: (replica index, perturbation code) per tick; replicas that are finished are skipped;
     /// when the list is exhausted the remaining steps run round robin
     pub schedule: Vec<(usize, u8)>,
+    /// supplementary configuration: the thread replicas run the whole job at the same time, released by a
+    /// barrier, with the OS deciding the interleaving (not replayable in its schedule; the oracle is an
+    /// equality that holds on every execution of correct code)
+    #[serde(default)]
+    pub free_running: bool,
 }
 
 pub struct Replicas;
@@ -241,6 +246,49 @@ enum Cmd {
     Output,
 }
 
+impl Replicas {
+    /// all replicas run the complete job concurrently (real parallelism); outputs must still be identical
+    fn execute_free_running(&self, plan: &ReplicaPlan, ctx: &mut Ctx) -> Result<(), Violation> {
+        let k = (plan.inline_replicas + plan.thread_replicas).max(2);
+        let job = &plan.job;
+        ctx.ev("free-running-replicas", k as u64);
+        ctx.count("fault:replicas-truly-concurrent");
+        let barrier = std::sync::Barrier::new(k);
+        let outs: Vec<Result<Vec<u64>, String>> = std::thread::scope(|scope| {
+            let hs: Vec<_> = (0..k)
+                .map(|r| {
+                    let barrier = &barrier;
+                    scope.spawn(move || {
+                        barrier.wait();
+                        caught(|| run_job_plain(job, r as u64))
+                    })
+                })
+                .collect();
+            hs.into_iter().map(|h| h.join().unwrap_or_else(|_| Err("replica thread died".into()))).collect()
+        });
+        let mut good = vec![];
+        for o in outs {
+            match o {
+                Ok(v) => good.push(v),
+                Err(msg) => return Err(Violation { property: ctx.target.clone(), oracle: "unexpected-panic".into(), key: String::new(), detail: msg }),
+            }
+        }
+        // reference: the same job alone in this thread afterwards
+        let alone = run_job_plain(job, 77);
+        for x in &alone {
+            ctx.out.add(*x);
+        }
+        for (r, o) in good.iter().enumerate() {
+            let bad = (0..alone.len().max(o.len())).find(|p| alone.get(*p) != o.get(*p));
+            ctx.check("C12", "concurrently-running-instances-agree", bad.is_none(), || {
+                format!("replica {} of {} running concurrently differs from the same job run alone at output word {:?}", r, k, bad)
+            })?;
+        }
+        ctx.nontrivial = nsteps(job) >= 2;
+        Ok(())
+    }
+}
+
 impl Scenario for Replicas {
     type Plan = ReplicaPlan;
     fn name(&self) -> &'static str {
@@ -276,7 +324,8 @@ impl Scenario for Replicas {
             let code = if rng.chance(p_perturb) { rng.below(256) as u8 } else { 0 };
             schedule.push((r, code));
         }
-        ReplicaPlan { job, inline_replicas, thread_replicas, process_replicas, schedule }
+        let free_running = rng.chance(0.08);
+        ReplicaPlan { job, inline_replicas, thread_replicas, process_replicas, schedule, free_running }
     }
 
     fn execute(&self, plan: &ReplicaPlan, ctx: &mut Ctx) -> Result<(), Violation> {
@@ -286,6 +335,9 @@ impl Scenario for Replicas {
         let total = plan.inline_replicas + plan.thread_replicas;
         let n = nsteps(&plan.job);
         ctx.sched.add(crate::prng::hash_str(&serde_json::to_string(&plan.job).unwrap()));
+        if plan.free_running {
+            return self.execute_free_running(plan, ctx);
+        }
         let mut next_step = vec![0usize; total];
         let mut inline: Vec<Option<Exec>> = (0..plan.inline_replicas).map(|_| None).collect();
         let mut outputs: Vec<Option<Vec<u64>>> = vec![None; total];
@@ -449,6 +501,11 @@ impl Scenario for Replicas {
         if !plan.process_replicas.is_empty() {
             let mut p = plan.clone();
             p.process_replicas.clear();
+            out.push(p);
+        }
+        if plan.free_running {
+            let mut p = plan.clone();
+            p.free_running = false;
             out.push(p);
         }
         if plan.thread_replicas > 1 {
